@@ -95,6 +95,7 @@ func verifH_C13_body_readable() {
 
 //verif:harness id=C13 tier=quick,thorough witness=end bounds="parameter defaults: query / header / cookie parameter with schema integer default 7 / 7.0 / 1000000.0 (as decoded from JSON), string default 'd', array of integers default [1,2] (style form/spaceDelimited/pipeDelimited, explode on/off), or object default {a:1,b:x} (query deepObject / form exploded or not, header simple exploded or not, cookie form not exploded); parameter absent, present with a value, or present but empty; declared on the operation, on the path item, or on the path item behind a parameter the operation overrides; SkipSettingDefaults on/off; after ValidateRequest the forwarded request carries the default exactly when it was absent and defaults are on; validating the forwarded request again succeeds and changes nothing; decoding the parameter again yields the default"
 func verifH_C13_param_defaults() {
+	verifMapOrder() // map iteration order is unspecified: ascending and descending key order
 	in := []string{"query", "header", "cookie"}[verifChoose("in", 3)]
 	shape := verifChoose("shape", 4)
 	var schema *openapi3.Schema
